@@ -15,6 +15,7 @@ import DuckModel.Drv.C12
 import DuckModel.Drv.C14
 import DuckModel.Drv.C16
 import DuckModel.Drv.C17
+import DuckModel.Drv.C17P
 import DuckModel.Drv.C18
 import DuckModel.Drv.C19
 import DuckModel.Drv.C20
@@ -35,6 +36,7 @@ def handlers : List (List String → Option String) := [
   Duck.Drv.C14.handle,
   Duck.Drv.C16.handle,
   Duck.Drv.C17.handle,
+  Duck.Drv.C17P.handle,
   Duck.Drv.C18.handle,
   Duck.Drv.C19.handle,
   Duck.Drv.C20.handle,
